@@ -23,6 +23,7 @@ type ScenarioInfo struct {
 	ThoroughBound      int      `json:"thorough_bound"`
 	Complete           bool     `json:"complete"`
 	NoThoroughComplete bool     `json:"no_thorough_complete"`
+	NoThoroughBounded  bool     `json:"no_thorough_bounded"`
 	ThoroughOnly       bool     `json:"thorough_only"`
 }
 
@@ -94,7 +95,7 @@ func WorkerMain(scenarios []Scenario) {
 		for i := range scenarios {
 			s := &scenarios[i]
 			info := ScenarioInfo{Name: s.Name, Family: s.Family, Doc: s.Doc, Threads: len(s.Threads), Shared: s.Shared,
-				Bound: s.Bound, ThoroughBound: s.ThoroughBound, Complete: s.Complete, NoThoroughComplete: s.NoThoroughComplete, ThoroughOnly: s.ThoroughOnly}
+				Bound: s.Bound, ThoroughBound: s.ThoroughBound, Complete: s.Complete, NoThoroughComplete: s.NoThoroughComplete, NoThoroughBounded: s.NoThoroughBounded, ThoroughOnly: s.ThoroughOnly}
 			for j := range s.Threads {
 				info.Labels = append(info.Labels, s.label(j))
 			}
